@@ -246,6 +246,9 @@ struct SaveCase {
     /// parses bytes and compares with the expectation
     check: Box<dyn Fn(&[u8]) -> Result<(), String>>,
     desc: String,
+    /// the shipped function refuses this input (e.g. the f32-only CSV tensor writer on an f64
+    /// backend): an Err on a healthy disk is then legitimate; an Ok still has to round-trip
+    may_refuse: bool,
 }
 
 fn make_array_case<T: IoElt>(fmt: Fmt, shape: [usize; 3], g: &mut Gen, specials: bool) -> SaveCase
@@ -272,7 +275,7 @@ where
             Box::new(move |b| parse_parquet(b, d, "chain", "observation").and_then(|r| compare_rows(r, &want))),
         ),
     };
-    SaveCase { fmt, cells, save, check, desc: format!("{fmt:?}<{}> shape {shape:?}", T::NAME) }
+    SaveCase { fmt, cells, save, check, desc: format!("{fmt:?}<{}> shape {shape:?}", T::NAME), may_refuse: false }
 }
 
 /// usize is Display but not Into<f64>: CSV only
@@ -322,6 +325,7 @@ fn make_csv_usize_case(shape: [usize; 3], g: &mut Gen, specials: bool) -> SaveCa
             Ok(())
         }),
         desc: format!("Csv<usize> shape {shape:?}"),
+        may_refuse: false,
     }
 }
 
@@ -339,6 +343,23 @@ fn make_tensor_case(fmt: Fmt, shape: [usize; 3], g: &mut Gen, specials: bool, f6
             save: Box::new(move |f| save_parquet_tensor::<NdArray<f64>, _, f64>(&t, f).map_err(|e| e.to_string())),
             check: Box::new(move |b| parse_parquet(b, d, "observation", "chain").and_then(|r| compare_rows(r, &want))),
             desc: format!("ParquetTensor<NdArray<f64>> shape {shape:?}"),
+            may_refuse: false,
+        };
+    }
+    if f64_backend && fmt == Fmt::CsvTensor {
+        // the CSV tensor writer is f32-only: on an f64 backend it may refuse (Err), but if it reports
+        // success the file has to hold the stored f64 values
+        let data: Vec<f64> = (0..n).map(|i| f64::gen(g, specials, i as u64)).collect();
+        let cells = Cells { shape, vals: data.clone() };
+        let want = expected_rows(&cells, false);
+        let t = Tensor::<NdArray<f64>, 3>::from_data(TensorData::new(data, shape), &Default::default());
+        return SaveCase {
+            fmt,
+            cells,
+            save: Box::new(move |f| save_csv_tensor(t.clone(), f).map_err(|e| e.to_string())),
+            check: Box::new(move |b| parse_csv::<f64>(b, d).and_then(|r| compare_rows(r, &want))),
+            desc: format!("CsvTensor<NdArray<f64>> shape {shape:?}"),
+            may_refuse: true,
         };
     }
     let data: Vec<f32> = (0..n).map(|i| f32::gen(g, specials, i as u64)).collect();
@@ -353,6 +374,7 @@ fn make_tensor_case(fmt: Fmt, shape: [usize; 3], g: &mut Gen, specials: bool, f6
                 save: Box::new(move |f| save_csv_tensor(t.clone(), f).map_err(|e| e.to_string())),
                 check: Box::new(move |b| parse_csv::<f32>(b, d).and_then(|r| compare_rows(r, &want))),
                 desc: format!("CsvTensor<NdArray<f32>> shape {shape:?}"),
+                may_refuse: false,
             }
         }
         _ => {
@@ -363,6 +385,7 @@ fn make_tensor_case(fmt: Fmt, shape: [usize; 3], g: &mut Gen, specials: bool, f6
                 save: Box::new(move |f| save_parquet_tensor::<NdArray<f32>, _, f32>(&t, f).map_err(|e| e.to_string())),
                 check: Box::new(move |b| parse_parquet(b, d, "observation", "chain").and_then(|r| compare_rows(r, &want))),
                 desc: format!("ParquetTensor<NdArray<f32>> shape {shape:?}"),
+                may_refuse: false,
             }
         }
     }
@@ -383,6 +406,7 @@ fn build_case(p: &Value) -> SaveCase {
         ("parquet", "f64") => make_array_case::<f64>(Fmt::Parquet, shape, &mut g, specials),
         ("parquet", "f32") => make_array_case::<f32>(Fmt::Parquet, shape, &mut g, specials),
         ("parquet", _) => make_array_case::<i32>(Fmt::Parquet, shape, &mut g, specials),
+        ("csv_tensor", "f64") => make_tensor_case(Fmt::CsvTensor, shape, &mut g, specials, true),
         ("csv_tensor", _) => make_tensor_case(Fmt::CsvTensor, shape, &mut g, specials, false),
         ("parquet_tensor", "f64") => make_tensor_case(Fmt::ParquetTensor, shape, &mut g, specials, true),
         (_, _) => make_tensor_case(Fmt::ParquetTensor, shape, &mut g, specials, false),
@@ -416,7 +440,9 @@ fn judge(o: &mut Outcome, case: &SaveCase, fault: &str, res: Result<Result<(), S
             o.violate("panic", &format!("save:{site}:panic@{loc}"), format!("{} with fault [{fault}] panicked: {m}", case.desc));
         }
         Ok(Err(e)) => {
-            if fault == "none" {
+            if fault == "none" && case.may_refuse {
+                o.count("probe_refused_input_err", 1);
+            } else if fault == "none" {
                 o.violate("faultfree_err", &format!("save:{site}:Err-without-fault"), format!("{} failed on a healthy disk: {e}", case.desc));
             } else {
                 o.count("probe_err_after_fault", 1);
@@ -450,7 +476,7 @@ const FMTS: &[(&str, &[&str])] = &[
     ("csv", &["f64", "f32", "i32", "usize"]),
     ("arrow", &["f64", "f32", "i32"]),
     ("parquet", &["f64", "f32", "i32"]),
-    ("csv_tensor", &["f32"]),
+    ("csv_tensor", &["f32", "f32", "f64"]),
     ("parquet_tensor", &["f32", "f64"]),
 ];
 
@@ -603,7 +629,7 @@ impl Scenario for RealDisk {
                 }
             }
             Ok(Err(e)) => {
-                if kind == "ok" {
+                if kind == "ok" && !case.may_refuse {
                     o.violate("faultfree_err", &format!("save:{site}:Err-without-fault"), format!("{} failed on the real disk: {e}", case.desc));
                 }
             }
